@@ -148,6 +148,8 @@ def split_top(spec):
     if spec == "cleanup(True)":
         return ["RRG()", "MU()", "MD()", "ME()"]
     inner = None
+    if spec.startswith("iter(") and spec.endswith(")"):
+        return split_top(spec[5:-1])
     if spec.startswith("[") and spec.endswith("]"):
         inner, sep = spec[1:-1], ","
     elif spec.startswith("(") and spec.endswith(")") and _balanced(spec[1:-1]):
@@ -337,7 +339,7 @@ def unit(p, item, tier, seed):
         twice_checks(p, name, c)
         cleanup_history_check(p, name, c)
         user_pass_checks(p, name, c)
-        for spec in rnd.sample(specs, min(len(specs), 8 if tier == "quick" else 25)):
+        for spec in rnd.sample(specs, min(len(specs), 8 if tier == "quick" else 25)) + [rnd.choice(passes.ONE_SHOT)]:
             if ("ME()" in spec or spec == "cleanup(True)") and len(c.inputs) > 6:
                 continue
             pipeline_checks(p, name, c, spec)
